@@ -5,6 +5,9 @@ import sys
 import time
 
 VERIF = os.path.dirname(os.path.dirname(os.path.abspath(__file__)))
+# where evidence/ and out/ are written: /verif itself, except when a seeded variant in a scratch worktree is being examined
+# (tools/confirm_seeds.py), whose reports must not replace the evidence of /repo
+OUTROOT = os.environ.get("VERIF_SCRATCH_OUT") or VERIF
 
 
 class AnalysisBroken(Exception):
@@ -98,7 +101,7 @@ class Report:
                 samples.append({k: o[k] for k in ("rule", "instance", "where", "detail")})
             if len(samples) >= 12:
                 break
-        outdir = os.path.join(VERIF, "out", self.pid)
+        outdir = os.path.join(OUTROOT, "out", self.pid)
         os.makedirs(outdir, exist_ok=True)
         lines = []
         code = 0
@@ -155,8 +158,8 @@ class Report:
             "wall_s": round(wall, 3),
             "violations": len(self.violations),
         }
-        os.makedirs(os.path.join(VERIF, "evidence"), exist_ok=True)
-        with open(os.path.join(VERIF, "evidence", self.pid + ".json"), "w") as f:
+        os.makedirs(os.path.join(OUTROOT, "evidence"), exist_ok=True)
+        with open(os.path.join(OUTROOT, "evidence", self.pid + ".json"), "w") as f:
             json.dump(ev, f, indent=1)
         print("%s [%s]: %d obligations, %d discharged, %d known finding(s), %d violation(s), %d function(s), %.1fs" %
               (self.pid, self.tier, n_ob, n_ok, len(self.known_hits), len(self.violations), len(self.functions), wall))
